@@ -474,6 +474,12 @@ def probe_known():
         j.statepoint = {"c": True}
         if j.statepoint()["c"] is not True:
             KNOWN_SEEN.add("dep:equal-value-other-type-ignored")
+        import pickle
+        j.sp
+        try:
+            pickle.loads(pickle.dumps(j))
+        except RecursionError:
+            KNOWN_SEEN.add("pickle:materialised-statepoint-handle")
     finally:
         shutil.rmtree(d, ignore_errors=True)
 
